@@ -112,7 +112,11 @@ def verdict(contract, module, env, outcome):
 def find_contract(cid):
     prop = cid.split('.')[0].lower()
     module = importlib.import_module('contracts.' + prop)
-    for c in module.CONTRACTS:
+    cs = list(module.CONTRACTS)
+    if hasattr(module, 'dynamic_contracts'):
+        import os
+        cs += list(module.dynamic_contracts(os.environ.get('JEDI_REPO', '/repo')))
+    for c in cs:
         if c.id == cid:
             return c, module
     raise KeyError(cid)
